@@ -162,7 +162,10 @@ class SNd(SV):
         return to_real(arr_elem(self))
 
     def sv_truth(self, it):
-        raise Unsupported("truth value of an array")
+        # bool(array): the element for a one-element array, ValueError otherwise
+        if it.branch(to_z3(self.size) == 1):
+            return to_real(arr_elem(self)) != 0
+        it.raise_("ValueError")
 
     def sv_getitem(self, it, key):
         return array_getitem(it, self, key)
@@ -589,6 +592,29 @@ def _rewrap(it, nd, like):
     return o
 
 
+@np_fn("numpy.zeros_like", "np.zeros_like(x, dtype=...): fresh array of zeros with x's shape")
+def _np_zeros_like(it, x, dtype=None, **kw):
+    return _filled_like(it, x, 0, dtype)
+
+
+@np_fn("numpy.ones_like", "np.ones_like(x, dtype=...): fresh array of ones with x's shape")
+def _np_ones_like(it, x, dtype=None, **kw):
+    return _filled_like(it, x, 1, dtype)
+
+
+def _filled_like(it, x, v, dtype):
+    if not is_array(x):
+        raise Unsupported("zeros_like/ones_like of a non-array")
+    if dtype is None:
+        k, n = arr_kind(x), arr_itemsize(x)
+    elif isinstance(dtype, Intrinsic) and dtype.name == "bool":
+        k, n = "b", 1
+    else:
+        d = np_dtype(it, dtype)
+        k, n = d.kind, d.itemsize
+    return new_array(it, z3.RealVal(v), k, n, x, "filled")
+
+
 @np_fn("numpy.copy", "np.copy(x): fresh buffer, same values, plain ndarray")
 def _np_copy(it, x, *a, **kw):
     return new_array(it, arr_elem(x), arr_kind(x), arr_itemsize(x), x, "np_copy")
@@ -616,6 +642,33 @@ def _np_any(it, x, *a, **kw):
     raise Unsupported("np.any(%r)" % (x,))
 
 
+count_nz = z3.Function("np_count_nonzero", z3.IntSort(), z3.IntSort())
+count_nz_scalar = lambda x: z3.If(to_real(x) != 0, z3.IntVal(1), z3.IntVal(0))   # noqa: E731
+
+
+def count_nonzero_term(x):
+    """spec term for np.count_nonzero(x): a function of the buffer (for arrays) / of the value"""
+    x = const_float(x)
+    if is_array(x):
+        return count_nz(z3.IntVal(arr_buf(x).bid))
+    t = scalar_term(None, x)
+    if t is None:
+        raise Unsupported("count_nonzero(%r)" % (x,))
+    return count_nz_scalar(t)
+
+
+@np_fn("numpy.count_nonzero", "np.count_nonzero(x): number of non-zero elements; for an array it "
+       "is an uninterpreted function of the buffer with: count == 0 implies the (arbitrary) "
+       "element is 0, count >= 0")
+def _np_count_nonzero(it, x, *a, **kw):
+    x = const_float(x)
+    t = count_nonzero_term(x)
+    if is_array(x):
+        it.assume(t >= 0)
+        it.assume(z3.Implies(t == 0, to_real(arr_elem(x)) == 0))
+    return t
+
+
 @np_fn("numpy.copyto", "np.copyto(dst, src): dst's buffer receives src's values (cast to "
        "dst's dtype); nothing else changes")
 def _np_copyto(it, dst, src, *a, **kw):
@@ -629,21 +682,75 @@ def _np_copyto(it, dst, src, *a, **kw):
     return None
 
 
-def _ufunc2(name, op):
+def _b2r(c):
+    return z3.If(c, z3.RealVal(1), z3.RealVal(0))
+
+
+def _zabs(x):
+    return z3.If(x >= 0, x, -x)
+
+
+# element-wise scalar semantics of the binary ufuncs (reals; exact where a closed form exists,
+# otherwise an uninterpreted function with the algebraic facts stated in UFUNC_FACTS)
+BINARY_UFUNCS = {
+    "add": lambda x, y: x + y, "subtract": lambda x, y: x - y, "multiply": lambda x, y: x * y,
+    "true_divide": lambda x, y: x / y, "divide": lambda x, y: x / y,
+    "power": lambda x, y: UD.rpow(x, y),
+    "maximum": lambda x, y: z3.If(x >= y, x, y), "minimum": lambda x, y: z3.If(x <= y, x, y),
+    "fmax": lambda x, y: z3.If(x >= y, x, y), "fmin": lambda x, y: z3.If(x <= y, x, y),
+    "less": lambda x, y: _b2r(x < y), "less_equal": lambda x, y: _b2r(x <= y),
+    "greater": lambda x, y: _b2r(x > y), "greater_equal": lambda x, y: _b2r(x >= y),
+    "equal": lambda x, y: _b2r(x == y), "not_equal": lambda x, y: _b2r(x != y),
+    "hypot": lambda x, y: ufn("hypot")(x, y), "remainder": lambda x, y: ufn("remainder")(x, y),
+    "mod": lambda x, y: ufn("remainder")(x, y), "fmod": lambda x, y: ufn("fmod")(x, y),
+    "arctan2": lambda x, y: ufn("arctan2")(x, y), "floor_divide": lambda x, y: ufn("floor_divide")(x, y),
+    "copysign": lambda x, y: ufn("copysign")(x, y), "nextafter": lambda x, y: ufn("nextafter")(x, y),
+    "heaviside": lambda x, y: ufn("heaviside")(x, y), "logaddexp": lambda x, y: ufn("logaddexp")(x, y),
+    "matmul": lambda x, y: ufn("matmul")(x, y),
+}
+BOOL_RESULT = {"less", "less_equal", "greater", "greater_equal", "equal", "not_equal"}
+FLOAT_RESULT = {"true_divide", "divide", "hypot", "arctan2", "logaddexp"}
+assumed("numpy-ufunc-homogeneity", "hypot, remainder/mod, fmod (uninterpreted) are positively "
+        "homogeneous of degree 1: f(k*x, k*y) == k*f(x, y) for k > 0; arctan2 is invariant under a "
+        "common positive scaling (instantiated where a contract needs it)")
+
+
+def homogeneity_fact(name, k, x, y):
+    """f(k*x, k*y) == k*f(x,y)  (degree 1)  for the uninterpreted homogeneous ufuncs"""
+    f = ufn({"mod": "remainder"}.get(name, name))
+    if name == "arctan2":
+        return z3.Implies(k > 0, f(k * x, k * y) == f(x, y))
+    return z3.Implies(k > 0, f(k * x, k * y) == k * f(x, y))
+
+
+def _ufunc2(name, op=None):
+    fn = BINARY_UFUNCS[name]
+
     def f(it, x, y, out=None, **kw):
         x, y = const_float(x), const_float(y)
         if (is_unyt_array(x) or is_unyt_array(y) or is_unyt_array(out)):
             raise Unsupported("np.%s on unyt arrays goes through __array_ufunc__ (contract)" % name)
+        for k in kw:
+            if k not in ("where", "casting", "order", "dtype", "subok", "axis", "axes", "keepdims"):
+                raise Unsupported("np.%s keyword %s" % (name, k))
+        if kw.get("where") is not None and kw.get("where") is not True:
+            raise Unsupported("np.%s with where=" % name)
         ex = arr_elem(x) if is_array(x) else scalar_term(it, x)
         ey = arr_elem(y) if is_array(y) else scalar_term(it, y)
         if ex is None or ey is None:
             raise Unsupported("np.%s operands" % name)
-        e = elem_op(it, op, ex, ey)
+        e = fn(to_real(ex), to_real(ey))
         like = x if is_array(x) else y
+        floaty_scalar = (not is_array(x) and is_floaty(x)) or (not is_array(y) and is_floaty(y))
         if out is not None:
             b = arr_buf(out)
-            if it.branch(z3.And(is_int_kind(b.kind), z3.BoolVal(
-                    is_floaty(x) or is_floaty(y)) if not (is_array(x) and is_array(y)) else False)):
+            needs_float = z3.BoolVal(bool(floaty_scalar or name in FLOAT_RESULT))
+            for o in (x, y):
+                if is_array(o):
+                    needs_float = z3.Or(needs_float, z3.Not(is_int_kind(arr_kind(o))))
+            # NumPy refuses (UFuncTypeError, a TypeError) to cast a float result into an
+            # integer buffer under same_kind casting
+            if name not in BOOL_RESULT and it.branch(z3.And(is_int_kind(b.kind), needs_float)):
                 it.raise_("TypeError")
             b.elem = e
             b.writes += 1
@@ -651,18 +758,45 @@ def _ufunc2(name, op):
             return out
         if not is_array(like):
             return e
-        k, n = arr_kind(like), arr_itemsize(like)
-        if not (is_array(x) and is_array(y)):
-            other = y if is_array(x) else x
-            if is_floaty(other):
+        if name in BOOL_RESULT:
+            return new_array(it, e, "b", 1, like, name)
+        if is_array(x) and is_array(y):
+            k, n = promote_arrays(arr_kind(x), arr_itemsize(x), arr_kind(y), arr_itemsize(y))
+        else:
+            k, n = arr_kind(like), arr_itemsize(like)
+            if floaty_scalar:
                 k, n = promote_with_pyfloat(k, n)
-        return new_array(it, e, k, n, like, name)
+        if name in FLOAT_RESULT:
+            k = z3.If(to_z3(k) == sv("c"), sv("c"), sv("f"))
+            n = z3.If(is_int_kind(arr_kind(like)), z3.IntVal(8), to_z3(n))
+        # shape: broadcasting of the two operands
+        return broadcast_result(it, e, k, n, x, y, name)
     return f
 
 
-for _n, _op in (("add", "+"), ("subtract", "-"), ("multiply", "*"), ("true_divide", "/"),
-                ("divide", "/"), ("power", "**")):
-    np_fn("numpy." + _n, "element-wise %s; out= writes through the buffer" % _op)(_ufunc2(_n, _op))
+def broadcast_result(it, e, k, n, x, y, label):
+    """shape abstraction of a broadcast binary result: 0-d iff both operands are 0-d (python
+    scalars count as 0-d); size is that of the larger operand when the other is 0-d"""
+    def sc(o):
+        return to_z3(arr_scalar(o)) if is_array(o) else z3.BoolVal(True)
+
+    def sz(o):
+        return to_z3(arr_size(o)) if is_array(o) else z3.IntVal(1)
+    scalar = z3.And(sc(x), sc(y))
+    size = it.fresh_int("bsize")
+    it.assume(size >= 0)
+    it.assume(z3.Implies(scalar, size == 1))
+    it.assume(z3.Implies(sc(x), size == sz(y)))
+    it.assume(z3.Implies(sc(y), size == sz(x)))
+    it.assume(z3.Implies(z3.And(sz(x) == sz(y)), z3.Or(size == sz(x), z3.Not(z3.Or(sc(x), sc(y))))))
+    return SNd(SBuf(e, k, n), z3.simplify(scalar), size, label)
+
+
+for _n in BINARY_UFUNCS:
+    _f = _ufunc2(_n)
+    np_fn("numpy." + _n, "element-wise %s (broadcasting); out= writes through the buffer; result "
+          "dtype by NumPy promotion (abstracted)" % _n)(_f)
+    UD.EXTERNAL_CALLS["numpy." + _n + ".__call__"] = _f
 
 
 @np_fn("numpy.sqrt", "element-wise square root: y >= 0 and y*y == x for x >= 0")
@@ -723,9 +857,24 @@ def install(domain_cls):
             return array_inplace(it, op, cur, v)
         return orig_inplace(self, it, op, cur, v)
 
+    def obj_binop(self, it, obj, op, other, reflected):
+        # python scalar * quantity (the `mul * out_arr` tail of __array_ufunc__): this is the
+        # multiply(s, q) configuration of __array_ufunc__ itself, used here through its
+        # contract (induction hypothesis; proved as U_multiply_call_sq): same class, same shape,
+        # same unit, every element scaled, fresh memory
+        if "_buf" in obj.fields and op == "*" and not is_array(other):
+            t = scalar_term(it, other)
+            if t is not None:
+                it.call_log.append("unyt.array.unyt_array.__array_ufunc__[multiply(s,q) by contract]")
+                nd = new_array(it, to_real(arr_elem(obj)) * t,
+                               *promote_with_pyfloat(arr_kind(obj), arr_itemsize(obj)), obj, "scaled")
+                return _rewrap(it, nd, obj)
+        return orig_binop(self, it, obj, op, other, reflected)
+
     domain_cls.obj_getattr = obj_getattr
     domain_cls.obj_setattr = obj_setattr
     domain_cls.inplace_binop = inplace_binop
+    domain_cls.obj_binop = obj_binop
 
 
 install(UD.UnytDomain)
